@@ -136,8 +136,9 @@ fn gen_name(g: &mut Gen) -> String {
 }
 
 fn gen_v4(g: &mut Gen) -> String {
-    match g.weighted(&[5, 1, 1]) {
+    match g.weighted(&[5, 1, 1, 2]) {
         0 => format!("10.{}.{}.{}", g.below(2), g.below(3), g.below(4)),
+        3 => format!("{}.{}.{}.{}", g.u8(), g.u8(), g.u8(), g.u8()),
         1 => "0.0.0.0".into(),
         _ => "255.255.255.255".into(),
     }
@@ -145,8 +146,11 @@ fn gen_v4(g: &mut Gen) -> String {
 
 fn gen_v6(g: &mut Gen) -> String {
     let low = g.below(4);
-    match g.weighted(&[3, 2, 2, 2, 1, 1]) {
+    match g.weighted(&[3, 2, 2, 2, 1, 1, 2, 1]) {
         0 => format!("fd00::{low}"),
+        // long printed forms: eight arbitrary groups, or a gap in the middle
+        6 => (0..8).map(|_| format!("{:x}", g.below(0x10000))).collect::<Vec<_>>().join(":"),
+        7 => format!("2a00:{:x}:{:x}:{:x}::{:x}", g.range(0x100, 0xffff), g.range(0x100, 0xffff), g.range(0x100, 0xffff), g.range(0x100, 0xffff)),
         1 => format!("FD00:0:0:0:0:0:0:{low}"),
         2 => format!("fd00:0000:0000:0000:0000:0000:0000:000{low}"),
         3 => "::".into(),
